@@ -275,9 +275,9 @@ func invertEndian(i uint8) uint8 {
 
 // CheckBitRangeLittleEndian checks that a little-endian bit range fits in the data.
 func CheckBitRangeLittleEndian(frameLength, rangeStart, rangeLength uint8) error {
-	lsbIndex := rangeStart
-	msbIndex := rangeStart + rangeLength - 1
-	upperBound := frameLength * 8
+	lsbIndex := uint16(rangeStart)
+	msbIndex := uint16(rangeStart) + uint16(rangeLength) - 1
+	upperBound := uint16(frameLength) * 8
 	if msbIndex >= upperBound {
 		return fmt.Errorf("bit range out of bounds [0, %v): [%v, %v]", upperBound, lsbIndex, msbIndex)
 	}
@@ -291,6 +291,9 @@ func CheckBitRangeBigEndian(frameLength, rangeStart, rangeLength uint8) error {
 		return fmt.Errorf("bit range starts out of bounds [0, %v): %v", upperBound, rangeStart)
 	}
 	msbIndex := invertEndian(rangeStart)
+	if rangeLength > msbIndex+1 {
+		return fmt.Errorf("bit range ends out of bounds [0, %v): length %v from %v", upperBound, rangeLength, rangeStart)
+	}
 	lsbIndex := msbIndex - rangeLength + 1
 	end := invertEndian(lsbIndex)
 	if end >= upperBound {
